@@ -112,7 +112,7 @@ RECIPES = {
     "surface-fraction-number": ("ctor", "ValueError"),
     "surface-bad-mnemonic": ("treeNone", "ParsingError"),
     "surface-extra-constant": ("ctor", "ValueError"),
-    "surface-junk-char": ("parser", "ParsingError"),
+    "surface-junk-char": ("treeNone", "ParsingError"),
     "material-unknown-element": ("ctor", "UnknownElement"),
     "material-odd-entries": ("treeNone", "ParsingError"),
     "transform-junk": ("treeNone", "ParsingError"),
@@ -211,6 +211,8 @@ def corruptions(desc, rng):
         if surfaces[i]["type"] == "px" and surfaces[i]["tr"] is None:
             mod("dangle-periodic", lambda d, i=i: d["surfaces"][i].update(per=986))
         for r in RECIPE_BLOCK["surfaces"]:
+            if r == "surface-extra-constant" and surfaces[i]["type"] == "so":
+                continue  # the general Surface class does not count its constants
             mod("fault:" + r, lambda d, i=i, r=r: d["surfaces"][i].update(fault={"recipe": r}))
     for i, x in enumerate(data):
         mod("delete-data-input", lambda d, i=i: d["data"].pop(i))
